@@ -2,7 +2,8 @@
 """Copies confirmed seeded changes from /tmp/seed_out/<id>/ into /verif/seeded/<id>/ with a meta.json built from the
 try_seed.sh logs (first run: /tmp/seedeval/<id>.log, after strengthening: /tmp/seedeval/r2/<id>.log)."""
 import json, os, re, shutil, sys
-SRC, LOGS, DST = '/tmp/seed_out', '/tmp/seedeval', '/verif/seeded'
+SRC, LOGS, DST = os.environ.get('SEED_SRC', '/tmp/seed_out'), os.environ.get('SEED_LOGS', '/tmp/seedeval'), '/verif/seeded'
+OFFSET = int(os.environ.get('SEED_OFFSET', '0'))      # wave 2 seeds C01_1 / C01_2 are recorded as C01_3 / C01_4
 
 
 def parse(log):
@@ -40,7 +41,9 @@ for sid in sorted(os.listdir(SRC)):
     if not ok:
         print('NOT CONFIRMED', sid, first)
         continue
-    d = os.path.join(DST, sid)
+    prop_, num_ = sid.split('_')
+    sid_out = '%s_%d' % (prop_, int(num_) + OFFSET)
+    d = os.path.join(DST, sid_out)
     os.makedirs(d, exist_ok=True)
     for f in ('patch.diff', 'demo.py', 'notes.md'):
         shutil.copy(os.path.join(SRC, sid, f), os.path.join(d, f))
@@ -58,4 +61,4 @@ for sid in sorted(os.listdir(SRC)):
         meta['check_result_after_strengthening'] = second['checks']
     json.dump(meta, open(os.path.join(d, 'meta.json'), 'w'), indent=1)
     caught = any(c.startswith('VIOLATION') for c in (second or first)['checks'])
-    print('%-7s %-8s %s' % (sid, 'caught' if caught else 'MISSED', title[:100]))
+    print('%-7s -> %-7s %-8s %s' % (sid, sid_out, 'caught' if caught else 'MISSED', title[:100]))
